@@ -413,15 +413,24 @@ def execute(scn, ctx):
     seam = ctx.seam
     seam.seed(scn["np_seed"])
     pool, specs, callers, cfps = [], [], [], []
+    early = []
     for spec in scn["objects"]:
-        o, c = build_object(spec)
+        try:
+            o, c = build_object(spec)
+        except Exception as e:  # noqa: BLE001 - e.g. a constructor that writes to a read-only caller array
+            early.append({"invariant": "C10.construction", "tags": {"kind": spec["kind"]},
+                          "detail": f"constructing a {spec['kind']} object from valid{' read-only' if spec.get('readonly') else ''} arrays raised {type(e).__name__}: {e}"})
+            continue
         pool.append(o)
         specs.append((spec, 0))
         callers.append(c)
         cfps.append(c.fp0)  # fingerprint taken before the constructor saw the arrays
+    if not pool:
+        return {"violations": early, "trace": [["construction-failed"]], "stats": {"ops": 0, "faults": {}, "probes": {}},
+                "signature": "construction-failed", "nontrivial": False, "states": []}
     args = {i: build_arg(a) for i, a in enumerate(scn["arrays"])}
     arg_fp = {i: M.fingerprint(v) if isinstance(v, np.ndarray) else repr(v) for i, v in args.items()}
-    viol, trace, sig = [], [], []
+    viol, trace, sig = list(early), [], []
     probes, faults = {}, {}
     n_draws = n_forced = n_lines = 0
     states = set()
